@@ -43,6 +43,7 @@ Fifth round: C20.2 an instance node is created by one direct sequence create per
 Sixth round: C20.1 the map of waiting monitors handed to an evaluation is a mapping on every path (never None).
 Seventh round: C20.4 the delete request of the scale-down branch does not depend on the rate budget; C20.6 a handled failure class suspends the monitor either in its handler or through a reason left for the block after the try (decided path-sensitively for the constant-valued local).
 Ninth round: C20.6 state['suspended'] and state['monitors'] are changed in place and never re-bound after the state dictionary was built.
+Tenth round: C20.1 the charge follows the granted create with nothing in between that can raise (the evaluation swallows errors; F33, repaired in /repo).
 Does NOT decide convergence and budget over sequences of evaluations.
 """
 
@@ -207,6 +208,41 @@ def check(ctx):
            len(decs) == 1 and N.txt(decs[0].ast.value) == asked,
            'the amount subtracted from the budget is that same variable',
            construct='budget decrement')
+    # a granted request is charged whatever happens next: nothing that can
+    # raise runs between the create that succeeded and the charge (the
+    # evaluation swallows errors, so an alert or a lookup failing there
+    # leaves instances created and the budget untouched)
+    if decs:
+        after = K.cut_reach(graph, cnode, cut_node=lambda n: n in decs,
+                            follow_exc=False) if False else None
+        between = []
+        seen_b = set()
+        todo_b = [e.dst for e in cnode.succ if e.kind != 'exc']
+        while todo_b:
+            cur = todo_b.pop()
+            if cur in seen_b or cur in decs or cur is cnode:
+                continue
+            seen_b.add(cur)
+            todo_b.extend(e.dst for e in cur.succ if e.kind != 'exc')
+        # nodes from which the charge is still reachable: the stretch
+        # between the create and the charge
+        for cand in seen_b:
+            if K.find_path(cand, decs, follow_exc=False) is None:
+                continue
+            risky = [c for c in C.node_calls(cand)
+                     if not K.callee_text(c).startswith('_LOGGER.')]
+            if risky:
+                between.append((cand, risky[0]))
+        between.sort(key=lambda x: getattr(x[1], 'lineno', 0))
+        ctx.ob('C20.1', func, between[0][0] if between else decs[0],
+               not between,
+               'the charge follows the granted create with nothing in '
+               'between that can raise' if not between else
+               'between the create that succeeded and the charge runs %s: '
+               'if it raises, the catch-all of the evaluation swallows the '
+               'error, the instances stay created and the budget is not '
+               'charged' % N.txt(between[0][1])[:60],
+               construct='charge follows the granted create')
     adef = defs.get(asked, [None])[0] if asked else None
     ok = False
     detail = N.txt(adef) if adef is not None else None
@@ -865,6 +901,21 @@ _AM = 'lib/python/treadmill/sproc/appmonitor.py'
 _IN = 'lib/python/treadmill/api/instance.py'
 
 MUTANTS = [
+    ('revert-F33-charge-after-the-alert', [(_AM, """                # The request went through: charge it whatever happens next.
+                conf['available'] -= allowed
+
+                if name in last_waited:
+                    # this means app jump out of wait, need to clear it from zk
+                    alert_f(name, 'Monitor active again', status='clear')
+                    modified = True
+""", """
+                if name in last_waited:
+                    # this means app jump out of wait, need to clear it from zk
+                    alert_f(name, 'Monitor active again', status='clear')
+                    modified = True
+
+                conf['available'] -= allowed
+""")], 'C20.1'),
     ('allowed-ignores-budget', [(_AM, """            allowed = int(min(needed, math.floor(available)))
 """, """            allowed = int(needed)
 """)], 'C20.1'),
@@ -885,10 +936,10 @@ MUTANTS = [
                 _scheduled = restclient.post(""", """            conf['available'] -= allowed
             try:
                 # scheduled, remove app from waited list
-                _scheduled = restclient.post("""), (_AM, """                    modified = True
-
+                _scheduled = restclient.post("""), (_AM, """                # The request went through: charge it whatever happens next.
                 conf['available'] -= allowed
-""", """                    modified = True
+
+""", """
 """)], 'C20.2'),
     ('refill-cap-on-increment', [(_AM, """            conf['available'] = min(available + delta, max_value)
 """, """            conf['available'] = available + min(delta, max_value)
